@@ -47,8 +47,9 @@ def _validate(chk, lines, label, budget=6):
     return ntr
 
 
-def run(chk, family_cases):
-    model_check(chk)
+def run(chk, family_cases, model=True, corpus=None):
+    if model:
+        model_check(chk)
     rnd = random.Random(common.seed())
     common.build_harness()
     d = common.scratch("scoperec")
@@ -71,7 +72,7 @@ def run(chk, family_cases):
     files = [f for f in files if "/testdata/" not in f or "/err" not in f]
     rnd.shuffle(files)
     nfiles = 0
-    for f in files[: 80 if chk.tier == "quick" else len(files)]:
+    for f in files[: corpus if corpus is not None else (80 if chk.tier == "quick" else len(files))]:
         try:
             text = open(f, encoding="utf-8").read()
         except Exception:
